@@ -66,24 +66,29 @@ def addressed {V : Type} (o : Obj) (c : Call V) : Option (Iface × Method) :=
 def attr (o : Obj) (name : Str) : Option Func :=
   o.classes.findSome? fun c => (c.attrs.find? fun a => a.1 = name).map (·.2)
 
-/-- Interface names of the decorated functions of a class body, in order (with repetitions). -/
-def decoIfaces (attrs : List (Str × Func)) : List Str := attrs.filterMap fun a => a.2.deco.map (·.1)
+/-- The interface names a class body mentions, in order (with repetitions): the interface a function is
+decorated for, the interface a `DBusProperty` attribute belongs to. -/
+def bodyIfaces (body : List BodyEntry) : List Str :=
+  body.filterMap fun e => match e with
+    | .func a => a.2.deco.map (·.1)
+    | .prop i => some i
 
 /-- The last function of a class body decorated for `(i, m)`: its attribute name. -/
 def lastDecorated (attrs : List (Str × Func)) (i m : Str) : Option Str :=
   (attrs.reverse.find? fun a => a.2.deco = some (i, m)).map (·.1)
 
 /-- For an interface WITHOUT a name: the decorated functions of the class body are searched whatever
-interface they name - the interfaces in the order the class body first mentions them, the first of
-them that has a function decorated for `member` decides (its last such function). -/
-def decoratedAnyIn (attrs : List (Str × Func)) (member : Str) : Option Str :=
-  (decoIfaces attrs).findSome? fun i => lastDecorated attrs i member
+interface they name - the interfaces in the order the class body first mentions them (by a decorated
+function OR by a property), the first of them that has a function decorated for `member` decides (its
+last such function). -/
+def decoratedAnyIn (c : Class) (member : Str) : Option Str :=
+  (bodyIfaces c.body).findSome? fun i => lastDecorated c.attrs i member
 
 /-- The attribute name under which class `c` provides a function decorated for `(iname, member)`:
 the last such function of the class body; `decoratedAnyIn` when the interface name is EMPTY (an
 interface declared as `DBusInterface('')`: the code's `if interfaceName:` is false). -/
 def decoratedName (c : Class) (iname member : Str) : Option Str :=
-  if iname ≠ [] then lastDecorated c.attrs iname member else decoratedAnyIn c.attrs member
+  if iname ≠ [] then lastDecorated c.attrs iname member else decoratedAnyIn c member
 
 /-- The decorator table of the class chain: the first class that has a function decorated for
 `(iname, member)` decides; within a class the last such function; the function is then taken by
